@@ -105,6 +105,12 @@ def run(prop, tier, seed):
                 ws = [mp.mpf(float(w)) for w in sc.weights]
                 worst_e = max([rl.rel_error(fam, part, k, xs, ws) for part, k in rl.obligations(fam, key, len(xs))] or [mp.mpf(0)])
                 same = worst_e <= mp.mpf("1e-13") and all(0 < float(x) < 1 for x in sc.points)
+                # a caller may map the scheme it was handed to its own interval in place; later requests must not see that
+                try:
+                    sc.points *= 3.0
+                    sc.weights *= 0.5
+                except (ValueError, TypeError):
+                    pass            # read-only or integer arrays: nothing to mutate
             except Exception as ex:
                 same, worst_e = False, repr(ex)[:80]
             if not same:
@@ -126,6 +132,11 @@ def run(prop, tier, seed):
                 ws = [mp.mpf(float(w)) for w in sc.weights]
                 worst_e = max(rl.rel_error(fam, "w", k, xs, ws) for k in range(npoly + 1))
                 okc = worst_e <= mp.mpf("1e-13")
+                try:
+                    sc.points *= 3.0
+                    sc.weights *= 0.5
+                except (ValueError, TypeError):
+                    pass
             except Exception as ex:
                 okc, worst_e = False, repr(ex)[:80]
             ncons += 1
